@@ -31,64 +31,72 @@ import "github.com/dcaiafa/lox/internal/base/set"
 // First(D), and '+' by First('+'). Finally ε is in the final result only
 // because First(D) includes it.
 func First(g *Grammar, syms []Term) set.Set[*Terminal] {
-	visited := new(set.Set[Term])
-	if len(syms) == 1 {
-		return first(g, visited, syms[0])
+	if g.firsts == nil {
+		g.firsts = firstSets(g)
 	}
+	firsts := g.firsts
 	var firstSet set.Set[*Terminal]
+	allEpsilon := true
 	for _, sym := range syms {
-		partialFirst := first(g, visited, sym)
-		firstSet.AddSet(partialFirst)
-
-		// If sym[i] includes ε, include FIRST(sym[i+1]) in FIRST(syms).
-		// Otherwise, stop now.
-		if !partialFirst.Has(Epsilon) {
-			firstSet.Remove(Epsilon)
+		partialFirst := symFirst(firsts, sym)
+		hasEpsilon := false
+		partialFirst.ForEach(func(t *Terminal) {
+			if t == Epsilon {
+				hasEpsilon = true
+				return
+			}
+			firstSet.Add(t)
+		})
+		if !hasEpsilon {
+			allEpsilon = false
 			break
 		}
+	}
+	if allEpsilon && len(syms) > 0 {
+		firstSet.Add(Epsilon)
 	}
 	return firstSet
 }
 
-func first(g *Grammar, visited *set.Set[Term], s Term) set.Set[*Terminal] {
+func symFirst(firsts map[*Rule]*set.Set[*Terminal], s Term) set.Set[*Terminal] {
 	if terminal, ok := s.(*Terminal); ok {
 		return set.New[*Terminal](terminal)
 	}
+	return *firsts[s.(*Rule)]
+}
 
-	// Productions can contain recursion.
-	// E.g.: xs = xs x | x
-	if visited.Has(s) {
-		return set.Set[*Terminal]{}
+// firstSets computes FIRST of every rule as the least fix-point of the usual
+// equations, which is what makes it correct for nullable rules that are
+// reached more than once or recursively.
+func firstSets(g *Grammar) map[*Rule]*set.Set[*Terminal] {
+	firsts := make(map[*Rule]*set.Set[*Terminal], len(g.Rules))
+	for _, r := range g.Rules {
+		firsts[r] = new(set.Set[*Terminal])
 	}
-	visited.Add(s)
-
-	rule := s.(*Rule)
-	firstSet := set.Set[*Terminal]{}
-	for _, prod := range rule.Prods {
-		if len(prod.Terms) == 0 {
-			firstSet.Add(Epsilon)
-			continue
-		}
-
-		addEpsilon := true
-		for _, term := range prod.Terms {
-			termFirst := first(g, visited, term)
-			hasEpsilon := false
-			termFirst.ForEach(func(s *Terminal) {
-				if s == Epsilon {
-					hasEpsilon = true
-					return
+	for changed := true; changed; {
+		changed = false
+		for _, prod := range g.Prods {
+			fs := firsts[prod.Rule]
+			addEpsilon := true
+			for _, term := range prod.Terms {
+				hasEpsilon := false
+				tf := symFirst(firsts, term)
+				tf.ForEach(func(t *Terminal) {
+					if t == Epsilon {
+						hasEpsilon = true
+						return
+					}
+					changed = fs.Add(t) || changed
+				})
+				if !hasEpsilon {
+					addEpsilon = false
+					break
 				}
-				firstSet.Add(s)
-			})
-			if !hasEpsilon {
-				addEpsilon = false
-				break
+			}
+			if addEpsilon {
+				changed = fs.Add(Epsilon) || changed
 			}
 		}
-		if addEpsilon {
-			firstSet.Add(Epsilon)
-		}
 	}
-	return firstSet
+	return firsts
 }
